@@ -13,6 +13,8 @@ import (
 	"testing"
 
 	dtpb "github.com/google/fhir/go/proto/google/fhir/proto/r4/core/datatypes_go_proto"
+	"github.com/verily-src/fhirpath-go/fhirpath"
+	"github.com/verily-src/fhirpath-go/fhirpath/compopts"
 	"github.com/verily-src/fhirpath-go/internal/fhir"
 	"google.golang.org/protobuf/proto"
 	"google.golang.org/protobuf/reflect/protoreflect"
@@ -208,6 +210,9 @@ type c12Case struct {
 	Specs []string `json:"specs"`
 	Pick  int      `json:"pick"`           // node sampling offset
 	Only  string   `json:"only,omitempty"` // ask only about the top-level element of this name (top-level-elements stage)
+	// Perm: compiled with compopts.Permissive() — field steps then hand choice wrappers on
+	// unopened, and `is`/`as` have to look through them themselves
+	Perm bool `json:"perm,omitempty"`
 }
 
 // c12EnumTop: every top-level element of every R4 resource type once: a resource in which
@@ -228,7 +233,7 @@ func c12EnumTop(yield func(c12Case)) {
 
 func c12Gen(s Src) c12Case {
 	r := genAnyResource(s, defaultGen)
-	c := c12Case{Res: resToText(r), Pick: s.Intn(1000)}
+	c := c12Case{Res: resToText(r), Pick: s.Intn(1000), Perm: s.Prob(25)}
 	for i := 0; i < pick(12, 40); i++ {
 		c.Specs = append(c.Specs, pickOne(s, c12Specs))
 	}
@@ -250,6 +255,11 @@ func c12Run(ctx *Ctx, c c12Case) {
 	}
 	input := []fhir.Resource{res.(fhir.Resource)}
 	typ := root.Name
+	var copts []fhirpath.CompileOption
+	mode := ""
+	if c.Perm {
+		copts, mode = []fhirpath.CompileOption{compopts.Permissive()}, " [Permissive]"
+	}
 	var nodes []*Node
 	nodes = append(nodes, root)
 	root.walk(func(n *Node) { nodes = append(nodes, n) })
@@ -301,8 +311,11 @@ func c12Run(ctx *Ctx, c c12Case) {
 		if strings.Contains(path, ".div") || strings.Contains(path, ".`div`") {
 			continue // xhtml is not among the type names of the statement's quantifier
 		}
+		if c.Perm && (n.Synth || n.ViaAny) {
+			continue // Permissive opens neither references nor contained resources: outside the statement
+		}
 		// the path must address exactly this node (C02's findings are not re-reported here)
-		base := evalWith(path, input, nil)
+		base := evalWith(path, input, nil, copts...)
 		if base.failed() || len(base.Coll) != 1 {
 			ctx.Count("node_not_addressable(C02)")
 			continue
@@ -310,8 +323,18 @@ func c12Run(ctx *Ctx, c c12Case) {
 		if n.Synth {
 			// a synthesised reference string: no identity
 		} else if bm, ok := base.Coll[0].(proto.Message); !ok || (!n.ViaAny && any(bm) != any(n.Msg)) {
-			ctx.Count("node_not_addressable(C02)")
-			continue
+			// Permissive: the unopened choice wrapper whose chosen value is the node
+			inWrapper := false
+			if ok && c.Perm && !n.ViaAny && isChoiceMD(bm.ProtoReflect().Descriptor()) {
+				if fd := bm.ProtoReflect().WhichOneof(bm.ProtoReflect().Descriptor().Oneofs().Get(0)); fd != nil && fd.Message() != nil {
+					inWrapper = any(bm.ProtoReflect().Get(fd).Message().Interface()) == any(n.Msg)
+				}
+			}
+			if !inWrapper {
+				ctx.Count("node_not_addressable(C02)")
+				continue
+			}
+			ctx.Count("choice_wrapper_operands(Permissive)")
 		}
 		decl := declaredType(n)
 		if decl == "?" {
@@ -343,7 +366,7 @@ func c12Run(ctx *Ctx, c c12Case) {
 		for _, spec := range specs {
 			ts := resolveSpec(spec)
 			src := path + " is " + spec
-			out := evalWith(src, input, nil)
+			out := evalWith(src, input, nil, copts...)
 			strict := ts.Valid && (ts.NS != "FHIR" || (anc[ts.Name] && ts.Name != decl) || !anc[ts.Name])
 			cls := "decl:component"
 			switch {
@@ -360,7 +383,7 @@ func c12Run(ctx *Ctx, c c12Case) {
 			if n.Choice {
 				cls += "(choice member)"
 			}
-			ctx.Eval(c.Res+"|"+src, strict && ts.Valid && ts.Name != decl, cls)
+			ctx.Eval(c.Res+"|"+src+mode, strict && ts.Valid && ts.Name != decl, cls)
 			if out.Panic != "" {
 				ctx.Fail("types: `is` panics", src+": "+out.Panic)
 				return
@@ -369,7 +392,7 @@ func c12Run(ctx *Ctx, c c12Case) {
 				if out.CompileErr == nil {
 					ctx.Fail(fmt.Sprintf("types: invalid type specifier accepted by Compile (%s)", c12SpecClass(spec)), src+" → "+out.String())
 				}
-				if asOut := evalWith(path+" as "+spec, input, nil); asOut.CompileErr == nil {
+				if asOut := evalWith(path+" as "+spec, input, nil, copts...); asOut.CompileErr == nil {
 					ctx.Fail(fmt.Sprintf("types: invalid type specifier accepted by Compile after `as` (%s)", c12SpecClass(spec)), path+" as "+spec+" → "+asOut.String())
 				}
 				continue
@@ -387,11 +410,11 @@ func c12Run(ctx *Ctx, c c12Case) {
 			got := renderColl(out.Coll)
 			if out.Err != nil || got != fmt.Sprintf("[Boolean:%v]", want) {
 				declShown := decl
-				ctx.Fail(fmt.Sprintf("types: `%s is %s` want %v [%s]", c12DeclClass(declShown), c12TargetClass(ts, decl, anc), want, cls), fmt.Sprintf("%s → %s (declared type %s, node %s)", src, out, decl, n.TypeName))
+				ctx.Fail(fmt.Sprintf("types: `%s is %s` want %v [%s]", c12DeclClass(declShown), c12TargetClass(ts, decl, anc), want, cls), fmt.Sprintf("%s%s → %s (declared type %s, node %s)", src, mode, out, decl, n.TypeName))
 				continue
 			}
 			// as: the very node when `is` holds, empty otherwise
-			asOut := evalWith(path+" as "+spec, input, nil)
+			asOut := evalWith(path+" as "+spec, input, nil, copts...)
 			if want {
 				ok := !asOut.failed() && len(asOut.Coll) == 1
 				if ok {
@@ -406,10 +429,10 @@ func c12Run(ctx *Ctx, c c12Case) {
 					}
 				}
 				if !ok {
-					ctx.Fail("types: `x as T` does not return x itself when `x is T`", fmt.Sprintf("%s as %s → %s", path, spec, asOut))
+					ctx.Fail("types: `x as T` does not return x itself when `x is T`", fmt.Sprintf("%s as %s%s → %s", path, spec, mode, asOut))
 				}
 			} else if asOut.failed() || len(asOut.Coll) != 0 {
-				ctx.Fail("types: `x as T` is not empty when `x is T` is false", fmt.Sprintf("%s as %s → %s", path, spec, asOut))
+				ctx.Fail("types: `x as T` is not empty when `x is T` is false", fmt.Sprintf("%s as %s%s → %s", path, spec, mode, asOut))
 			}
 		}
 	}
